@@ -14,6 +14,7 @@ import (
 	"sort"
 	"strconv"
 	"strings"
+	"time"
 
 	"github.com/pterm/pterm"
 )
@@ -281,13 +282,36 @@ func main() {
 	w := bufio.NewWriterSize(outF, 1<<16)
 	sc := bufio.NewScanner(in)
 	sc.Buffer(make([]byte, 1<<20), 1<<26)
+	// watchdog: an op that does not come back (a deadlock in the code under test, an endless loop) is reported as `hang`
+	// instead of blocking the whole stream; the rest of its case is skipped, and after three hangs everything is
+	opTimeout := 90 * time.Second
+	if v, err := strconv.Atoi(os.Getenv("VERIF_OP_TIMEOUT_S")); err == nil && v > 0 {
+		opTimeout = time.Duration(v) * time.Second
+	}
+	hungCase, hangs := false, 0
 	for sc.Scan() {
 		line := sc.Text()
 		if strings.HasPrefix(line, "#") || strings.TrimSpace(line) == "" {
+			if strings.HasPrefix(line, "#case") {
+				hungCase = false
+			}
 			fmt.Fprintln(w, line)
 			continue
 		}
-		fmt.Fprintln(w, dispatch(line))
+		if hungCase || hangs >= 3 {
+			fmt.Fprintln(w, "skipped-after-hang")
+			continue
+		}
+		done := make(chan string, 1)
+		go func(l string) { done <- dispatch(l) }(line)
+		select {
+		case out := <-done:
+			fmt.Fprintln(w, out)
+		case <-time.After(opTimeout):
+			fmt.Fprintln(w, "hang:watchdog")
+			hungCase = true
+			hangs++
+		}
 		w.Flush()
 	}
 	w.Flush()
